@@ -558,6 +558,44 @@ fn sampling_case(rng: &mut Rng, w: usize, h: usize, singles: usize, tag: &str) -
     Case { w, h, px, bg: None, crop: None, tag: tag.to_string() }
 }
 
+/// A low, very wide picture (`h` rows): background colour with sparse structure, a run of a second
+/// colour crossing every multiple of 65536 columns, a third colour used only at columns >= 65536 (when
+/// there are any), a fourth only at low columns, and the last column in a colour of its own.
+fn wide_case(rng: &mut Rng, w: usize, h: usize, tag: &str) -> Case {
+    let back = [20u8, 40, 60, 255];
+    let cross = [250u8, 10, 10, 255];
+    let beyond = [10u8, 250, 10, 255];
+    let low = [10u8, 10, 250, 255];
+    let last = [240u8, 240, 10, 255];
+    let mut px = vec![back; w * h];
+    for y in 0..h {
+        for m in (65536..w + 8).step_by(65536) {
+            let from = m - 3 - rng.below(6) as usize;
+            let to = m + 3 + rng.below(9) as usize;
+            for x in from..to.min(w) {
+                if y % 2 == 0 || x % 3 != 0 {
+                    px[y * w + x] = cross;
+                }
+            }
+        }
+        for _ in 0..40 {
+            let x = rng.below(w as u64) as usize;
+            let run = 1 + rng.below(5) as usize;
+            let c = if x >= 65536 + 20 { beyond } else if x + 30 < 65536 { low } else { back };
+            for k in x..(x + run).min(w) {
+                if px[y * w + k] == back {
+                    px[y * w + k] = c;
+                }
+            }
+        }
+        if w > 65536 + 40 {
+            px[y * w + 65536 + 25 + y] = beyond;
+        }
+        px[y * w + w - 1] = last;
+    }
+    Case { w, h, px, bg: None, crop: None, tag: tag.to_string() }
+}
+
 fn random_case(rng: &mut Rng, thorough: bool) -> Case {
     let kind = rng.below(100);
     let (w, h) = if kind < 80 {
@@ -781,7 +819,11 @@ fn run_case(out: &mut Out, shared: &mut Shared, case: &Case, full_lines: bool) {
 
     // -- verified Lean interpreter on the implementation's bytes ---------------------------------
     let pixhex = |pix: &mut dyn Iterator<Item = [u8; 3]>| hex(&pix.flatten().collect::<Vec<u8>>());
-    if full_lines {
+    if vw > 8192 {
+        // the list-based canvas of the Lean interpreter is quadratic in the width: pictures wider than
+        // 8192 columns are judged by the Rust decoder only
+        out.hist("wide:rust-decoder-only");
+    } else if full_lines {
         let expected_pix = if fits && opaque {
             pixhex(&mut src.iter().take(vw * th).copied())
         } else {
@@ -794,8 +836,10 @@ fn run_case(out: &mut Out, shared: &mut Shared, case: &Case, full_lines: bool) {
 
     // -- correspondence: model of the encoder on (palette, qimg) ---------------------------------
     let canon = canonical(&bytes, &d);
-    let pair = quantised(&img, bg);
-    if let Some((pal, q)) = pair {
+    // (the list-based Lean models index columns in linear time: no model lines for very wide pictures)
+    let pair = if vw > 8192 { Some((Vec::new(), Vec::new())) } else { quantised(&img, bg) };
+    if vw > 8192 {
+    } else if let Some((pal, q)) = pair {
         let palhex = hex(&pal.iter().flatten().copied().collect::<Vec<u8>>());
         let qhex = hex(&q.iter().flat_map(|i| [(*i >> 8) as u8, *i as u8]).collect::<Vec<u8>>());
         // `vh`, not `th`: the model truncates the height itself
@@ -1048,6 +1092,9 @@ fn run_eviction_session(out: &mut Out, seed: u64, budget: usize, ops: usize) {
     let mut req = String::new();
     let (mut hits, mut misses, mut evictions) = (0u64, 0u64, 0u64);
     let mut pending_repeat: Option<usize> = None;
+    // reference LRU cache of this budget (most recently used first): what the handler is documented to be
+    let mut lru: Vec<(u64, usize)> = Vec::new();
+    let mut lru_size = 0usize;
     for _ in 0..ops {
         let i = match pending_repeat.take() {
             Some(i) => i,
@@ -1077,15 +1124,30 @@ fn run_eviction_session(out: &mut Out, seed: u64, budget: usize, ops: usize) {
             picture[i] = Some(pix);
         }
         if let Some(prev) = &last[i] {
-            let must_equal = cached || (immediate && prev.len() <= budget);
+            let held = lru.iter().any(|e| e.0 == key);
+            let must_equal = cached || held || (immediate && prev.len() <= budget);
             if must_equal && *prev != bytes {
                 out.fail(
-                    if cached { "an image that is in the cache is drawn with different bytes" } else { "second draw right after the first emits different bytes although the encoding fits the cache budget" },
+                    if cached { "an image that is in the cache is drawn with different bytes" } else if held { "an image that a least-recently-used cache of this budget still holds (a hit refreshes its position) is drawn with different bytes" } else { "second draw right after the first emits different bytes although the encoding fits the cache budget" },
                     fail_input,
                     json!(hex(&prev[..prev.len().min(400)])),
                     json!(hex(&bytes[..bytes.len().min(400)])),
                 );
                 return;
+            }
+        }
+        // reference LRU: a hit moves the entry to the front, a miss inserts and evicts from the back
+        if let Some(p) = lru.iter().position(|e| e.0 == key) {
+            let e = lru.remove(p);
+            lru.insert(0, e);
+        } else {
+            lru.insert(0, (key, bytes.len()));
+            lru_size += bytes.len();
+            while lru_size > budget {
+                match lru.pop() {
+                    Some(e) => lru_size -= e.1,
+                    None => break,
+                }
             }
         }
         let (size, after) = cache_state(&handler);
@@ -1165,6 +1227,29 @@ fn main() {
     }
     for case in corners {
         run_case(&mut out, &mut shared, &case, true);
+    }
+    // "any width": pictures wider than 65536 columns (column numbers beyond 16 bits)
+    {
+        let mut widths: Vec<(usize, usize)> = vec![(65535, 6), (65536, 6), (65537, 6), (70000, 6)];
+        if cfg.thorough {
+            widths.extend([(65538, 7), (65600, 12), (131071, 6), (131072, 6), (131073, 6), (140000, 6), (200000, 6)]);
+            for _ in 0..6 {
+                widths.push((65536 + rng.below(80000) as usize, 6 + rng.below(7) as usize));
+            }
+        }
+        for (w, h) in widths {
+            let mut r = rng.fork();
+            run_case(&mut out, &mut shared, &wide_case(&mut r, w, h, "wide"), false);
+        }
+        // as a cropped view: 6 x 65560 out of 8 x 65570
+        let mut r = rng.fork();
+        let inner = wide_case(&mut r, 65560, 6, "wide-crop");
+        let (bw, bh) = (65570usize, 8usize);
+        let mut big = vec![[7u8, 7, 7, 255]; bw * bh];
+        for y in 0..6 {
+            big[(y + 1) * bw + 4..(y + 1) * bw + 4 + 65560].copy_from_slice(&inner.px[y * 65560..(y + 1) * 65560]);
+        }
+        run_case(&mut out, &mut shared, &Case { w: bw, h: bh, px: big, bg: None, crop: Some((1, 7, 4, 65564)), tag: "wide-crop".into() }, false);
     }
     // the sampling rule of the palette extraction (256 registers: below 51 200 kept pixels every pixel
     // is walked): pictures just below / above 25 600 and 51 200 pixels and in between, with 230 colours
